@@ -55,6 +55,8 @@ struct FnDir {
     /// (`match opt { Some(p) => body, None => None }` / `match opt { Some(v) => Some(v), None => body }`):
     /// for closures that capture `&mut` state, which Verus rejects
     inline_option: bool,
+    /// `@@noautopred`: switch E27 off for this directive
+    noautopred: bool,
     /// `@@inline_option map`: also `opt.map(|p| body)` -> `match opt { Some(p) => Some(body), None => None }`
     /// (opt-in: `.map` is also a method of `Result` and of iterators, where the match would not type-check)
     inline_option_map: bool,
@@ -329,6 +331,7 @@ fn parse_template(path: &Path, nodes: &mut Vec<Node>) {
                             d.letargs.push((m, n, t));
                         }
                         "viter" => d.viter = true,
+                        "noautopred" => d.noautopred = true,
                         "strslice" => d.strslice = true,
                         "inline_or_insert_with" => d.inline_entry = true,
                         "inline_option" => { d.inline_option = true; if rest.split_whitespace().any(|w| w == "map") { d.inline_option_map = true; } }
@@ -525,6 +528,9 @@ struct Ed<'a> {
     rename_self: bool,
     /// E26: parameters renamed to the names the contracts were written for (old name, new name)
     param_renames: Vec<(String, String)>,
+    /// E27: byte offsets of closure literals handed directly to a predicate-taking method (`filter`, `any`, ..)
+    bool_pred_closures: Vec<usize>,
+    pub auto_pred_headers: usize,
 }
 
 impl<'a> Ed<'a> {
@@ -591,6 +597,8 @@ impl<'a> Ed<'a> {
             wild_n: 0,
             rename_self: false,
             param_renames: vec![],
+            bool_pred_closures: vec![],
+            auto_pred_headers: 0,
         }
     }
     fn push(&mut self, start: usize, end: usize, text: impl Into<String>, kind: &'static str, swallow: bool) {
@@ -904,6 +912,12 @@ impl<'a, 'ast> Visit<'ast> for Ed<'a> {
         visit::visit_expr_call(self, c);
     }
     fn visit_expr_method_call(&mut self, e: &'ast syn::ExprMethodCall) {
+        // E27: a closure literal handed to a method that takes a predicate returns `bool`
+        if e.args.len() == 1 && matches!(e.method.to_string().as_str(), "filter" | "any" | "all" | "find" | "position" | "take_while" | "skip_while" | "retain" | "is_some_and" | "is_none_or" | "is_ok_and" | "is_err_and") {
+            if let syn::Expr::Closure(c) = &e.args[0] {
+                self.bool_pred_closures.push(c.span().byte_range().start);
+            }
+        }
         // E20: `AssertUnwindSafe(async { BODY }).catch_unwind()` -> the declared oracle stand-in
         if e.method == "catch_unwind" && e.args.is_empty() {
             if let syn::Expr::Call(c) = &*e.receiver {
@@ -1304,6 +1318,28 @@ impl<'a, 'ast> Visit<'ast> for Ed<'a> {
             }
             // only the body is visited: the header is replaced wholesale
             self.visit_expr(&c.body);
+        } else if !self.dir.noautopred && c.asyncness.is_none() && self.bool_pred_closures.contains(&start) && pure_pred_body(&c.body) {
+            // E27: a predicate closure without a header whose body is one side-effect free expression gets the header
+            // that says exactly what its body says: `|p| body` -> `|a0| -> (o: bool) ensures o == ({ let p = a0; body }) { let p = a0; body }`
+            // (the body text is the spec; if it is not expressible as a spec the front end rejects it: undecided, as before)
+            let mut names = vec![];
+            let mut lets = String::new();
+            for (k, p) in c.inputs.iter().enumerate() {
+                let inner = match p { syn::Pat::Type(pt) => &*pt.pat, other => other };
+                match inner {
+                    syn::Pat::Ident(pi) if pi.by_ref.is_none() && pi.subpat.is_none() => names.push(pi.ident.to_string()),
+                    _ => {
+                        let r = inner.span().byte_range();
+                        let pat = self.src[r].to_string();
+                        names.push(format!("vx_a{k}"));
+                        lets.push_str(&format!("let {pat} = vx_a{k}; "));
+                    }
+                }
+            }
+            let body_src = self.src[bstart..bend].to_string();
+            let end = c.span().byte_range().end;
+            self.push(start, end, format!("|{}| -> (vx_o: bool) ensures vx_o == ({{ {lets}{body_src} }}) {{ {lets}{body_src} }}", names.join(", ")), "E27-predicate-closure-specified-by-its-own-body", true);
+            self.auto_pred_headers += 1;
         } else {
             self.closures_unspecified += 1;
             if c.asyncness.is_some() {
@@ -1504,6 +1540,24 @@ struct FoundFn<'a> {
     block: &'a syn::Block,
 }
 
+/// E27: the body is ONE expression built from paths, literals, field accesses, method calls without closures,
+/// operators, references, tuples, parentheses — no statements, `?`, `return`, macros, closures, assignments
+fn pure_pred_body(e: &syn::Expr) -> bool {
+    struct P { ok: bool }
+    impl<'ast> Visit<'ast> for P {
+        fn visit_expr(&mut self, e: &'ast syn::Expr) {
+            match e {
+                syn::Expr::Path(_) | syn::Expr::Lit(_) | syn::Expr::Field(_) | syn::Expr::MethodCall(_) | syn::Expr::Binary(_)
+                | syn::Expr::Unary(_) | syn::Expr::Reference(_) | syn::Expr::Paren(_) | syn::Expr::Tuple(_) | syn::Expr::Index(_)
+                | syn::Expr::Call(_) | syn::Expr::Cast(_) => visit::visit_expr(self, e),
+                _ => self.ok = false,
+            }
+        }
+    }
+    let mut p = P { ok: true };
+    p.visit_expr(e);
+    p.ok
+}
 fn type_last_ident(t: &syn::Type) -> Option<String> {
     match t {
         syn::Type::Path(p) => p.path.segments.last().map(|s| s.ident.to_string()),
